@@ -301,9 +301,20 @@ KANI_STANDINS = {
 }
 
 
+def _closure_audit():
+    try:
+        import audit_closure
+        r = audit_closure.audit(REPO)
+        return {'assumed_contracts': r['assumed_contracts'], 'functions_proved': r['distinct_functions_proved'],
+                'assumed_but_proved_nowhere': r['assumed_but_proved_nowhere'][:40]}
+    except Exception as ex:
+        return {'error': repr(ex)}
+
+
 def _check_property(prop, tier, seed, mine, scratch, findings, t0):
     import kani_engine
-    kani_pool = cf.ThreadPoolExecutor(max_workers=4)
+    kani_pool = cf.ThreadPoolExecutor(max_workers=5)
+    audit_fut = kani_pool.submit(_closure_audit)
     kani_futs = []
     for n, st in enumerate(KANI_STANDINS.get(prop, [])):
         if tier in st['tiers']:
@@ -521,6 +532,11 @@ def _check_property(prop, tier, seed, mine, scratch, findings, t0):
         elif verdict == 'undecided':
             undecided.append('kani %s: %s' % (st['harness'], msg))
 
+    closure = audit_fut.result()
+    for m in closure.get('assumed_but_proved_nowhere', []):
+        assumptions.add('UNPROVED assumed contract: %s (assumed in %s)' % (m['function'], m['assumed_in']))
+    if closure.get('error'):
+        assumptions.add('modular-closure audit could not run: ' + closure['error'])
     # ---------------- evidence ----------------
     wall = time.time() - t0
     for row in fn_rows[:6]:
@@ -541,6 +557,7 @@ def _check_property(prop, tier, seed, mine, scratch, findings, t0):
             'undecided': undecided, 'unstable': unstable, 'stability_runs': stab,
             'known_findings_printed': [l for l in out_lines if l.startswith('KNOWN-FINDING')],
             'structural_checks': structural,
+            'modular_closure': closure,
             'solver_ms_total': sum((row.get('ms') or 0) for row in fn_rows),
         },
         'assumptions': sorted(assumptions),
